@@ -80,6 +80,11 @@ type c13Obs struct {
 	Connected bool   `json:"connected"`
 	State     string `json:"state"`
 	Note      string `json:"note,omitempty"`
+	// retries (applications that did not connect): every further attempt against the same collector answers must look
+	// like the first one -- same requests, same state; the handshake is fail-closed on EVERY attempt
+	Retries     int    `json:"retries"`
+	RetrySame   bool   `json:"retry_same"`
+	RetryDiffer string `json:"retry_differ,omitempty"`
 }
 
 func c13AppInfo(c *c13Case) *AppInfo {
@@ -329,6 +334,46 @@ func c13Proc(c *c13Case) c13Obs {
 	o.Err = !o.Connected
 	o.Reply = rep.ConnectReply != nil && o.Connected
 	c13ParseRet(rep.SecurityPolicies, &o)
+	o.RetrySame = true
+	if !o.Connected && rep.State == AppStateUnknown {
+		kinds := func(rs []c13Req) string {
+			out := ""
+			for _, r := range rs {
+				out += r.Cmd + ","
+			}
+			return out
+		}
+		first := kinds(o.Reqs)
+		p.appConnectBackoff = 0 // (the processor is idle in its select)
+		for k := 0; k < 3; k++ {
+			cl.mu.Lock()
+			n0 := len(cl.reqs)
+			cl.mu.Unlock()
+			p.IncomingAppInfo(nil, info)
+			if !c13Wait(p.trackProgress, "retry app info", &o) {
+				break
+			}
+			select {
+			case <-p.trackProgress: // the retried attempt has been handled
+			case <-time.After(500 * time.Millisecond):
+			}
+			cl.mu.Lock()
+			round := kinds(cl.reqs[n0:])
+			cl.mu.Unlock()
+			o.Retries++
+			if round != first && o.RetrySame {
+				o.RetrySame = false
+				o.RetryDiffer = fmt.Sprintf("attempt %d made the requests [%s], the first attempt [%s]", k+2, round, first)
+			}
+		}
+		p.appConnectBackoff = time.Hour
+		last := p.IncomingAppInfo(nil, info)
+		c13Wait(p.trackProgress, "last app info", &o)
+		if last.State != rep.State && o.RetrySame {
+			o.RetrySame = false
+			o.RetryDiffer = fmt.Sprintf("state %d after the retries, %d after the first attempt", last.State, rep.State)
+		}
+	}
 	return o
 }
 
